@@ -1161,7 +1161,8 @@ class PDFCIDFont(PDFFont):
             if ttf:
                 try:
                     self.unicode_map = ttf.create_unicode_map()
-                except TrueTypeFont.CMapNotFound:
+                except (TrueTypeFont.CMapNotFound, struct.error):
+                    # struct.error: the cmap table is truncated
                     pass
         else:
             try:
